@@ -1397,6 +1397,10 @@ func loadFunc(ctx *blockCtx, recv *types.Var, name string, d *ast.FuncDecl, genB
 			ctx.fileScope.Insert(fn.Func)
 		}
 	}
+	if genBody && d.Body == nil {
+		// the declaration gogen created is only completed when a body ends; without one WriteTo panics
+		ctx.handleErrorf(d.Name.Pos(), "missing function body")
+	}
 	if genBody {
 		if body := d.Body; body != nil {
 			if recv != nil {
